@@ -244,3 +244,107 @@ def replay_plan(ob):
     if f is None or (ob.target or '') != 'reverse udp_accept' or not ob.label.startswith('C10/reverse-udp/every-accepted'):
         return None
     return 'udp', {'driver': 'reverse_first_datagram', 'args': {}}, lambda o: o.get('first_datagram_delivered') is False
+
+
+# =========================================================================== UDP over QUIC datagrams: fragment ids on a shared connection
+
+def spec_quic_fragment_ids(ck, nframes=2):
+    """UDP carried as QUIC datagrams: every session (one FrameWriter each) cuts its frames into fragments labelled with a 16 bit
+    frame id, and ONE reassembler per QUIC connection (quic_frames_thread) puts the fragments of ALL sessions of that connection
+    together again, keyed by that id.  Reassembly is exact when the frames in flight have different ids (C11).  So: frames
+    written by different sessions of one connection must not carry the same id.  Two writers are created the way the code
+    creates them (create_quic_frames -> QuicFrameWriter::new) on the same connection; each writes `nframes` frames through the
+    real FrameWriter::write and Fragments::make_fragments; the datagrams handed to Connection::send_datagram are recorded."""
+    new = ck.find(lambda: ck.db.method('QuicFrameWriter', 'new'), 'QuicFrameWriter::new')
+    wr = ck.find(lambda: ck.db.method('QuicFrameWriter', 'write', trait='FrameWriter'), 'QuicFrameWriter::write')
+    if new is None or wr is None:
+        return
+    ex = ck.engine(loop_bound=6, call_depth=10)
+    import harness
+    ex.benign_havoc = harness.IRRELEVANT
+    st = State()
+    # the ids do not depend on sizes: one datagram size, frames of 10 and 17 bytes (2 and 3 fragments) -- stated bound
+    mtu = BV(12, 64)
+    conn = Opaque('quinn::Connection', 'the-shared-connection')
+    ff = ck.si.structs.get('Frame', ['addr', 'session_id', 'body'])
+
+    def as_buffer(ctx):
+        n = sum(1 for e in ctx.st.trace if e[0] == 'frame-serialised')
+        ctx.st.trace.append(('frame-serialised',))
+        return Bytes.symbolic('frame%d_bytes' % n, 'buf', BV(10 if n % 2 == 0 else 17, 64))
+
+    def send_datagram(ctx):
+        d = ctx.args[1]
+        d = ctx.ex.deref(ctx.st, d) if isinstance(d, Ref) else d
+        ctx.st.trace.append(('datagram', ctx.st.env.get('writer'), ctx.st.env.get('frame-no'), d))
+        return C.mk_result(ctx.ex, ok=UNIT)
+    for rx, f in ((r'Connection::max_datagram_size$', lambda ctx: C.mk_option(ctx.ex, Int(mtu, 64, False))), (r'Connection::send_datagram$', send_datagram),
+                  (r'^<(?:common::frames::)?Frame as (?:common::fragment::)?Fragmentable>::as_buffer$|^<T as Fragmentable>::as_buffer$', as_buffer),
+                  (r'<(?:quinn::)?Connection as Clone>::clone$', lambda ctx: conn)):
+        ex.overrides.append((re.compile(rx), f))
+    ex.inputs = {}
+    # two sessions of one connection
+    writers = []
+    states = [st]
+    for k, sid in enumerate((1, 2)):
+        nxt = []
+        for s in states:
+            for o in ex.call_fn(s, new, [conn, Int(BV(sid, 32), 32, False)]):
+                if o.status == 'returned':
+                    o.frames, o.status = [], 'running'
+                    nxt.append((o, o.ret))
+        if not nxt:
+            ck.add('C10/quic-datagrams/reachability', 'vacuous', 'QuicFrameWriter::new did not return')
+            return
+        states = [o for o, _ in nxt]
+        writers.append(nxt[0][1])
+    s0 = states[0]
+    frontier = [s0]
+    allf = []
+    # interleaved use: A, B, A, B ... (each write is one call; what matters is which ids end up on the wire)
+    for n in range(nframes):
+        for w, wv in enumerate(writers):
+            nxt = []
+            for s in frontier:
+                s.env['writer'], s.env['frame-no'] = w, n
+                frame = Agg('Frame', dict((i, Opaque(f_, 'frame-%d-%d-%s' % (w, n, f_)) if f_ != 'session_id' else Int(BV(0, 32), 32, False)) for i, f_ in enumerate(ff)))
+                for o, r in run_async(ex, s, wr, [wv if isinstance(wv, Ref) else Ref(s.alloc(wv), ()), frame]):
+                    allf.append(o)
+                    if o.status == 'returned' and r is not None and not _is_err_concrete(r):
+                        o.frames, o.status = [], 'running'
+                        nxt.append(o)
+            frontier = nxt
+    for o in allf:
+        if o.status == 'running':
+            o.status = 'returned'
+    decided = 0
+    for o in frontier:
+        dg = [e for e in o.trace if e[0] == 'datagram' and isinstance(e[3], Bytes)]
+        ids = {}
+        for e in dg:
+            ids.setdefault((e[1], e[2]), z3.Concat(e[3].at(0), e[3].at(1)))
+        keys = sorted(ids)
+        if len(keys) < 2 * nframes:
+            continue
+        decided += 1
+        for i, a in enumerate(keys):
+            for b in keys[i + 1:]:
+                if a[0] != b[0]:
+                    ex.prove(o, 'C10/quic-datagrams/frames-of-different-sessions-on-one-connection-carry-different-fragment-ids', ids[a] != ids[b])
+                else:
+                    ex.prove(o, 'C10/quic-datagrams/successive-frames-of-one-session-carry-different-fragment-ids', ids[a] != ids[b])
+    if not decided:
+        ck.add('C10/quic-datagrams/reachability', 'vacuous', 'the two writers never put %d frames each on the wire in the model' % nframes)
+    for f in ex.findings:
+        if not hasattr(f, 'target'):
+            f.target = 'QuicFrameWriter (two sessions, one connection)'
+    ck.plans.append(_quic_ids_replay_plan)
+    ck.absorb(ex, 'QuicFrameWriter::write (two sessions, one connection)', allf)
+    ck.bounds['quic-fragment-ids'] = 'two sessions of one QUIC connection, %d frames each written alternately, frames of 10 / 17 bytes at datagram size 12 (2 / 3 fragments per frame)' % nframes
+
+
+def _quic_ids_replay_plan(ob):
+    if (ob.target or '') != 'QuicFrameWriter (two sessions, one connection)':
+        return None
+    return 'quic', {'driver': 'quic_two_sessions', 'args': {'frames': 40, 'frame_len': 30000}}, \
+        lambda o: o.get('sequential_control_clean') is True and (o.get('corrupted', 0) > 0 or o.get('lost', 0) > 0)
